@@ -254,6 +254,23 @@ func TestC12_LivenessJailing(t *testing.T) {
 			return oks
 		}
 
+		streaks, streakDone := 0, false
+		unjailOne := func(t *rapid.T, x *c12Val) bool {
+			// wait until the sentence is over
+			for chain.BlockTime(c.H).Before(x.lastJailAt.Add(x.lastDur)) || !chain.BlockTime(c.H).After(x.lastJailAt.Add(x.lastDur)) {
+				run(t)
+			}
+			h := c.H
+			oks := step(t, c.MustSign(x.v.Actor, slashingtypes.NewMsgUnjail(x.v.Val().String())))
+			if oks[0] {
+				x.jailed = false
+				x.graceStart = h
+				unjails++
+			}
+			judge(t, h)
+			log = append(log, fmt.Sprintf("h%d:unjail(v%d)=%v", h, x.v.Index, oks[0]))
+			return oks[0]
+		}
 		t.Repeat(map[string]func(*rapid.T){
 			"keepAlive": func(t *rapid.T) {
 				x := vals[rapid.IntRange(0, n-1).Draw(t, "val")]
@@ -292,6 +309,36 @@ func TestC12_LivenessJailing(t *testing.T) {
 				x.aliveUntil = au
 				log = append(log, fmt.Sprintf("h%d:age(v%d,aliveUntil=%d)", c.H, x.v.Index, au))
 			},
+			// fixture: the keep-alives of the largest validator AND of one or two others run out at the same height, so that
+			// one sweep has to deal with a validator it may not jail next to validators it must jail
+			"ageSeveral": func(t *rapid.T) {
+				big := vals[0]
+				for _, x := range vals {
+					if x.v.Stake.GT(big.v.Stake) {
+						big = x
+					}
+				}
+				remaining := int64(rapid.SampledFrom([]int{0, 1, 5}).Draw(t, "remaining"))
+				au := c.H + remaining
+				k := rapid.IntRange(1, 2).Draw(t, "others")
+				targets := []*c12Val{big}
+				for _, x := range vals {
+					if x != big && len(targets) <= k && rapid.Bool().Draw(t, "also") {
+						targets = append(targets, x)
+					}
+				}
+				st := c.Ctx().KVStore(c.App.GetKey("valset"))
+				for _, x := range targets {
+					if x.aliveUntil == 0 || au >= x.aliveUntil {
+						continue
+					}
+					data := vtypes.KeepAliveData{ValAddr: x.v.Val(), ContactedAt: chain.BlockTime(au - c12TTL), AliveUntilBlockHeight: au, PigeonVersion: "v2.0.0"}
+					bz, _ := json.Marshal(data)
+					st.Set(append([]byte("keep-alive/"), x.v.Val()...), bz)
+					x.aliveUntil = au
+					log = append(log, fmt.Sprintf("h%d:age(v%d,aliveUntil=%d)", c.H, x.v.Index, au))
+				}
+			},
 			"advance": func(t *rapid.T) {
 				k := rapid.SampledFrom([]int{1, 1, 3, 10, 12, 35}).Draw(t, "blocks")
 				for i := 0; i < k; i++ {
@@ -310,22 +357,54 @@ func TestC12_LivenessJailing(t *testing.T) {
 					t.Skip("nobody jailed")
 				}
 				x := js[rapid.IntRange(0, len(js)-1).Draw(t, "who")]
-				// wait until the sentence is over
-				for chain.BlockTime(c.H).Before(x.lastJailAt.Add(x.lastDur)) || !chain.BlockTime(c.H).After(x.lastJailAt.Add(x.lastDur)) {
-					if x.lastDur > 20*time.Minute {
-						t.Skip("sentence too long to wait for")
+				if x.lastDur > 20*time.Minute {
+					t.Skip("sentence too long to wait for")
+				}
+				unjailOne(t, x)
+			},
+			// One validator goes silent and is jailed three times in a row: 20 minutes pass before it first unjails, then it
+			// unjails as soon as each sentence is over and is jailed again once its grace period ends - the third jailing
+			// falls more than 30 minutes after the first but less than 30 minutes after the second (the reset window counts
+			// from the latest jailing)
+			"jailStreak": func(t *rapid.T) {
+				if streaks >= 1 {
+					t.Skip("once")
+				}
+				var cands []*c12Val
+				for _, x := range vals {
+					if !x.jailed && x.aliveUntil != 0 {
+						cands = append(cands, x)
 					}
+				}
+				if len(cands) == 0 {
+					t.Skip("nobody to silence")
+				}
+				x := cands[rapid.IntRange(0, len(cands)-1).Draw(t, "who")]
+				streaks++
+				data := vtypes.KeepAliveData{ValAddr: x.v.Val(), ContactedAt: chain.BlockTime(c.H - c12TTL), AliveUntilBlockHeight: c.H, PigeonVersion: "v2.0.0"}
+				bz, _ := json.Marshal(data)
+				c.Ctx().KVStore(c.App.GetKey("valset")).Set(append([]byte("keep-alive/"), x.v.Val()...), bz)
+				x.aliveUntil = c.H
+				log = append(log, fmt.Sprintf("h%d:streak(v%d)", c.H, x.v.Index))
+				waitJailed := func() bool {
+					for i := 0; i < 60 && !x.jailed; i++ {
+						run(t)
+					}
+					return x.jailed
+				}
+				if !waitJailed() {
+					return
+				}
+				for i := 0; i < 200; i++ {
 					run(t)
 				}
-				h := c.H
-				oks := step(t, c.MustSign(x.v.Actor, slashingtypes.NewMsgUnjail(x.v.Val().String())))
-				if oks[0] {
-					x.jailed = false
-					x.graceStart = h
-					unjails++
+				for round := 0; round < 2; round++ {
+					if x.lastDur > 20*time.Minute || !unjailOne(t, x) || !waitJailed() {
+						return
+					}
 				}
-				judge(t, h)
-				log = append(log, fmt.Sprintf("h%d:unjail(v%d)=%v", h, x.v.Index, oks[0]))
+				log = append(log, fmt.Sprintf("h%d:streakDone(v%d,last sentence %s)", c.H, x.v.Index, x.lastDur))
+				streakDone = true
 			},
 			"setMinVersion": func(t *rapid.T) {
 				ver := rapid.SampledFrom([]string{"v1.11.3", "v1.12.0", "v2.0.0", "v1.0.0", "v0.9.0", "garbage"}).Draw(t, "minVersion")
@@ -368,6 +447,9 @@ func TestC12_LivenessJailing(t *testing.T) {
 			cm[i] = fmt.Sprintf("v%d:%d%s", i, stakes[i]/1_000_000, map[bool]string{true: ",", false: ""}[commas[i]])
 		}
 		sort.Strings(cm)
+		if streakDone {
+			labels = append(labels, "threeJailingsInARow")
+		}
 		evid.Case(t.Name(), strings.Join(cm, " ")+" | "+strings.Join(log, " "), nt, labels, func() any { return map[string]any{"validators(power,','=address contains 0x2c)": cm, "history": log} })
 	})
 }
